@@ -936,8 +936,6 @@ def register(R):
                requires=lambda c: [('appended_data_is_the_next_unwritten_bytes_of_the_object', z3.And(
                    B(c.a_data.base == 'obj'), to_int_term(c.a_data.lo) == streamed(c.old.st, c.a_fileobj)), ['C02', 'C16'])],
                effects=ns_write_effects)
-    R.contract(f'{DNS}.queue_file_io_task', params=dict(IO_PARAMS), requires=DATA_AT_OFFSET,
-               raise_when={'Exception': lambda c: None})
 
     # immediate writes of streaming destinations go through the defer queue (each byte once, in order)
     R.mark_inline(f'{DOM}.get_io_write_tasks')
@@ -985,6 +983,55 @@ def register(R):
         loops={0: LoopSpec(invariant=ns_tasks_loop_inv, havoc_heap=ns_tasks_havoc, local_types={'tasks': TASKS_T})},
     )
     R.contract(f'{DL}:ImmediatelyWriteIOGetObjectTask._handle_io', params={}, inline=True, loops={0: trivial_loop()})
+
+    # queued writes of streaming destinations: the defer queue releases what is next, and the released writes are
+    # handed to the single-threaded IO executor INSIDE the critical section that released them -- otherwise two request
+    # threads could submit their releases in the wrong order (C10: writes performed in the order they were queued)
+    def ns_queue_loop_inv(l):
+        from .c16 import writes_view
+        st = l.st
+        n, off, lo, hi = writes_view(st, l.local('writes'))
+        idx = to_int_term(l.index)
+        nxt0 = l.ghost.setdefault('nxt0', streamed(l.pre, l.local('fileobj')))
+        return {'stream_position_follows_the_released_writes': streamed(st, l.local('fileobj')) == z3.If(idx == 0, nxt0, hi(idx - 1))}
+
+    def ns_queue_iteration(l0, l1, evs):
+        sub = [e for e in evs if e.kind == 'call' and e.name == f'{TC}.submit']
+        lk = l1.st.obj(l1.st.env['$self']).fields['_io_submit_lock']
+        okk = len(sub) == 1 and sub[0].extra['env']['executor'] is l1.st.obj(l1.st.env['$self']).fields['_io_executor']
+        return {
+            'one_write_task_per_released_write_to_the_io_executor': (B(bool(okk)), ['C10', 'C02']),
+            'submitted_while_holding_the_io_submit_lock': (B(all(lk.oid in e.held for e in sub)), ['C10', 'C16']),
+        }
+
+    def ns_queue_checks(c):
+        tr = c.trace
+        lk = c.oldf('_io_submit_lock')
+        locks = [e for e in tr if e.kind == 'lock' and e.recv is not None and getattr(e.recv, 'oid', None) == lk.oid]
+        unlocks = [e for e in tr if e.kind == 'unlock' and e.recv is not None and getattr(e.recv, 'oid', None) == lk.oid]
+        rw = calls(tr, 'DeferQueue.request_writes')
+        loops = [e for e in tr if e.kind == 'loop']
+        return {'release_and_submission_form_one_critical_section': (B(
+            len(locks) == 1 and len(unlocks) == 1 and len(rw) == 1 and len(loops) == 1
+            and index_of(tr, locks[0]) < index_of(tr, rw[0]) < index_of(tr, loops[0]) < index_of(tr, unlocks[0])), ['C10', 'C16'])}
+
+    def ns_queue_effects(c, st):
+        st.ghost[('streamed', c.a_fileobj.label)] = z3.Int(fresh_name('streamed'))
+        q = st.obj(st.obj(c.self).fields['_defer_queue'])
+        q.fields['_next_offset'] = z3.Int(fresh_name('next_offset'))
+        return None
+
+    R.contract(
+        f'{DNS}.queue_file_io_task', props=['C02', 'C10', 'C16'], params=dict(IO_PARAMS),
+        requires=lambda c: DATA_AT_OFFSET(c) + [('released_so_far_is_what_was_written', released_eq_streamed(c.old, c.self, c.a_fileobj), ['C02', 'C16'])],
+        setup=lambda eng, st, args, self_val: streamed(st, args['fileobj']),
+        ensures=ns_tasks_post, checks=ns_queue_checks, effects=ns_queue_effects,
+        raises={'Exception': lambda c: {}}, raise_when={'Exception': lambda c: None},
+        raise_effects={'Exception': lambda c, st, exc: (ns_queue_effects(c, st), exc)[1]},
+        inline_callees=[f'{DOM}.queue_file_io_task'],
+        loops={0: LoopSpec(invariant=ns_queue_loop_inv, havoc_heap=ns_tasks_havoc, iteration_checks=ns_queue_iteration,
+                           local_types={'data': BytesT('obj')})},
+    )
 
     # the response body of one GetObject attempt: obj[start : start+blen], read in pieces of ANY size
     RETRYABLE = ('socket.timeout', 'botocore.exceptions.IncompleteReadError')
